@@ -151,7 +151,9 @@ type StepEvent struct {
 	A, B int64
 }
 
-func (e StepEvent) String() string { return fmt.Sprintf("#%d %s %s %d %d", e.K, e.Kind, e.File, e.A, e.B) }
+func (e StepEvent) String() string {
+	return fmt.Sprintf("#%d %s %s %d %d", e.K, e.Kind, e.File, e.A, e.B)
+}
 
 // StartStepper launches writer.py on db. fifoDir must be a scratch directory.
 func StartStepper(fifoDir, db, journalMode, scenario, uriParams string, mode string, at int, logPath string) (*Stepper, error) {
